@@ -10,6 +10,7 @@ CONSTANTS
   AllowMulti = FALSE
   MaxChoice = {3}
   MaxEnds = 2
+  AllowOrphans = FALSE
   StartCheck = TRUE
   MaxCalls = 3
 INIT Init
